@@ -4,6 +4,7 @@ import CedarVerif.Lemmas.TypecheckPolicy
 import CedarVerif.Lemmas.TypecheckSIP
 import CedarVerif.Lemmas.TypecheckSIP2
 import CedarVerif.Lemmas.TypecheckPSound
+import CedarVerif.Lemmas.TypecheckPFull
 import CedarVerif.Thm.C11
 /-
 C03 — strict validation is sound (and not vacuous).
@@ -13,6 +14,8 @@ permissive mode, tied to the Rust typechecker by the differential run of `./chec
 environment, both modes, plus the impossible-policy flag).
 
 FULL STATEMENT: `typeOf_sound` below (a `def … : Prop`, all expressions, both modes); `PermissiveSoundFull` is its permissive half.
+BOTH HALVES ARE PROVED: strict `typeOf_sound_strict`, permissive `permissive_sound_full` (premises: distinct record-literal keys,
+slots linked in the environment, and — permissive only — `SchemaND`).
 
 PROVED (0): `typeOf_sound_strict` — THE FULL STATEMENT WITH `m := .strict`, for every expression all of whose slots have a
 type in the environment (`SlotsLinked`); it is (1) plus `inFragment2_of` (distinct record keys + linked slots ⇒ fragment).
@@ -54,14 +57,27 @@ PROVED (3), PERMISSIVE MODE WITH NON-FLAT JOINS: `typeOf_sound_permissive_partia
     `impossible_policy_never_satisfied_static_permissive`; examples `exJoinEq`, `exSetMixed`, `exPermissivePolicy` are accepted
     by permissive mode, rejected by strict mode, and evaluate to booleans on the conformant `ex2World`.
   No permissive typing rule of the model was found unsound.
-NOT proved (`PermissiveSoundFull`, a `def … : Prop`, is the full permissive statement): `has` / `.` / `hasTag` / `getTag` / `in` /
-`is` / `<` applied to an operand whose type is an entity-type union or a joined record type (for example
-`(if c then principal else resource).name` — needs `lubAttrs` of a union against the store), joins whose `then` branch is an
-attribute access, a record literal or itself a non-flat join (needs "typeOf yields distinct record keys", which needs that of
-the schema's types); a slot in an environment that has no type for it (Rust types it `AnyEntity`; such a slot does not occur:
-`link_request_env` gives every slot of the policy a type; see `SlotsBound` in the full statement);
-record literals with duplicate keys (not representable in Rust).  These are covered by the differential run against Rust
-and by the implementation-level soundness search of harness/src/c03.rs only.
+PROVED (4), THE FULL PERMISSIVE STATEMENT: `permissive_sound_full : PermissiveSoundFull` (= `typeOf_sound_permissive`;
+    induction `soundPF`, Lemmas/TypecheckPFull.lean; rules on arbitrary operand types, Lemmas/TypecheckPUnion.lean): EVERY expression
+    with distinct record-literal keys and linked slots, no restriction on the static types of sub-expressions:
+      * joins (`if`, set literals) of arbitrary types, also when a branch / element is an attribute access, a record literal or a join;
+      * `has` / `.` on an operand typed with an entity-type union (`(if c then principal else resource).name`) or a joined (open)
+        record: `lubAttrs_find_mem` — an attribute of `lubAttrs s l` is an attribute of every member type, at least as required, with a
+        subtype, so a `StoreConforms` entity of ANY member type respects it; `mayHaveAttr_union_false` for the `False` typing of `has`;
+      * `hasTag` / `getTag` on a union (`tagTypes` of the members, joined by `lubAll`), `in` on unions / `AnyEntity` / sets of these /
+        `Set<Never>` (`anyDescendantOf` false ⇒ no member pair is related), `is` on unions and `AnyEntity`, `<` `<=`.
+    Type invariant (`typeOf_ndTy`, `OkTy`): the types `typeOf` yields have distinct record keys everywhere inside and `Never` only as
+    the element type of a set (so `Never`-typed expressions — whose capabilities would be unconstrained — do not arise).
+    Additional premise `SchemaND s`: the record types the schema declares (entity shapes, tag types, contexts, nested) have distinct
+    keys.  Rust's `Attributes` is a `BTreeMap`, so every `ValidatorSchema` satisfies it; the MODEL represents attributes as lists, and
+    with a duplicate key `lubAttrsPermissive` may keep an entry `Attrs.find?` does not see (`instance_of_lub`, left half).
+  Policy level, no fragment: `permissive_validation_sound`, `permissive_validation_sound_static`,
+    `impossible_policy_never_satisfied_permissive`; example `exUnionCond` (outside `InFragmentP`, rejected by strict mode) is accepted,
+    evaluates to `true` on `ex2World`, and instantiates every premise (`ex2_schemaND`).
+  No permissive typing rule of the model was found unsound.
+NOT covered by (4): a slot in an environment that has no type for it (Rust types it `AnyEntity`; such a slot does not occur:
+`link_request_env` gives every slot of the policy a type; see `SlotsBound` / `SlotsLinked`); record literals with duplicate keys
+(not representable in Rust: `Expr::record` rejects them); `unknown` (outside the model).
 `strict_implies_permissive` (full statement: a `def … : Prop`) is PROVED as `strict_implies_permissive_strict` — with the
 SAME type and capabilities in both modes — for every expression of the strict fragment `InFragment2` (every construct), under
 `SchemaWF3` (the record types the schema declares are closed with distinct keys; the action table is a map), and at policy
@@ -684,16 +700,52 @@ example : checkEnv .strict ex2Schema ex2Env (.unaryApp .isEmpty (.set [.lit (.in
 
 /-! ### PERMISSIVE mode: non-flat joins (entity-type unions, record joins, `Set<Never>`) -/
 
-/-- FULL STATEMENT for permissive mode (a `def … : Prop`; proved on `InFragmentP` only, see `typeOf_sound_permissive_partial`):
-`typeOf_sound` with `m := .permissive` for every expression with distinct record keys and linked slots. -/
+/-- FULL STATEMENT for permissive mode (PROVED: `permissive_sound_full`): `typeOf_sound` with `m := .permissive` for every
+expression with distinct record keys and linked slots.  Premise `SchemaND` (the record types the schema declares have
+distinct keys everywhere inside — Rust's `Attributes` is a `BTreeMap`, so every schema Rust constructs satisfies it) was
+added while proving the join rules: with a duplicate key in a schema record type the model's `lubAttrsPermissive` may keep
+an entry that `Attrs.find?` does not see. -/
 def PermissiveSoundFull : Prop :=
   ∀ (s : Schema) (env : RequestEnv) (w : World),
-    SchemaWF2 s → EnvMatches s env w.q → ConformsRequest s w.q → StoreConforms s w.es → ActionsPresent s w.es →
+    SchemaWF2 s → SchemaND s → EnvMatches s env w.q → ConformsRequest s w.q → StoreConforms s w.es → ActionsPresent s w.es →
     SlotsBound env w.sl →
     ∀ (e : Expr) (caps : Capabilities) (τ : CedarType) (c' : Capabilities), RecordKeysDistinct e = true →
       SlotsLinked env e = true →
       typeOf .permissive s env e caps = .ok (τ, c') → CapsHold w caps →
       TySound w e τ c' ∧ (τ = .bool .tt → CapsHold w c')
+
+/-- THE FULL STATEMENT IN PERMISSIVE MODE: every expression (distinct record-literal keys, linked slots), no restriction on
+the static types of sub-expressions — `if` / set literals joining arbitrary types, `has` `.` `hasTag` `getTag` `in` `is` `<`
+on operands typed with an entity-type union, `AnyEntity` or a joined (open) record type. -/
+theorem typeOf_sound_permissive (s : Schema) (env : RequestEnv) (w : World)
+    (hWF : SchemaWF2 s) (hND : SchemaND s) (henv : EnvMatches s env w.q) (hreq : ConformsRequest s w.q)
+    (hst : StoreConforms s w.es) (hact : ActionsPresent s w.es) (hsl : SlotsMatch env w.sl)
+    (e : Expr) (caps : Capabilities) (τ : CedarType) (c' : Capabilities) (hk : RecordKeysDistinct e = true)
+    (hlinked : SlotsLinked env e = true)
+    (h : typeOf .permissive s env e caps = .ok (τ, c')) (hc : CapsHold w caps) :
+    TySound w e τ c' ∧ (τ = .bool .tt → CapsHold w c') :=
+  (soundPF hWF hND henv e hk hlinked caps τ c' h).2 ⟨hreq, hst, hsl, hact⟩ hc
+
+theorem permissive_sound_full : PermissiveSoundFull :=
+  fun s env w hWF hND henv hreq hst hact hsl e caps τ c' hk hlinked h hc =>
+    typeOf_sound_permissive s env w hWF hND henv hreq hst hact hsl.slotsMatch e caps τ c' hk hlinked h hc
+
+/-- `typeOf` yields types with distinct record keys everywhere inside (and `Never` only as a set element type), permissive
+mode: what the left half of `instance_of_lub` needs of a `then` branch / a set element. -/
+theorem typeOf_ndTy (s : Schema) (env : RequestEnv) (q : Request) (hWF : SchemaWF2 s) (hND : SchemaND s)
+    (henv : EnvMatches s env q) (e : Expr) (hk : RecordKeysDistinct e = true) (hlinked : SlotsLinked env e = true)
+    (caps : Capabilities) (τ : CedarType) (c' : Capabilities) (h : typeOf .permissive s env e caps = .ok (τ, c')) :
+    ndTy τ = true ∧ τ ≠ .never :=
+  have hok := (soundPF (w := ⟨q, [], []⟩) hWF hND henv e hk hlinked caps τ c' h).1
+  ⟨hok.1, hok.ne_never⟩
+
+/-- … and strict mode (there the types are those of permissive mode, `strict_implies_permissive_strict`) -/
+theorem typeOf_ndTy_strict (s : Schema) (env : RequestEnv) (q : Request) (hWF : SchemaWF3 s) (hND : SchemaND s)
+    (henv : EnvMatches s env q) (e : Expr) (hk : RecordKeysDistinct e = true) (hlinked : SlotsLinked env e = true)
+    (caps : Capabilities) (τ : CedarType) (c' : Capabilities) (h : typeOf .strict s env e caps = .ok (τ, c')) :
+    ndTy τ = true ∧ τ ≠ .never :=
+  typeOf_ndTy s env q hWF.toSchemaWF2 hND henv e hk hlinked caps τ c'
+    (sipG hWF henv e (inFragment2_of env e hk hlinked) caps _ h)
 
 /-- SUBTYPING LEMMA (both modes): every value of either argument of `lub m` is a value of the least upper bound — for the
 permissive bound too: unions of entity types, `AnyEntity`, records joined with width / depth subtyping (dropped attributes,
@@ -810,6 +862,95 @@ theorem impossible_policy_never_satisfied_static_permissive (s : Schema) (cond :
   subst hff
   exact typed_false_never_satisfiedP s env w hWF henv hreq hst hact hsl cond (hf env) hv
 
+/-- Corollary (permissive, every expression): a condition the permissive typechecker does not reject in the environment of a
+conformant request evaluates to a boolean, or fails with a permitted error. -/
+theorem accepted_boolean_or_permitted_error_permissive (s : Schema) (env : RequestEnv) (w : World)
+    (hWF : SchemaWF2 s) (hND : SchemaND s) (henv : EnvMatches s env w.q) (hreq : ConformsRequest s w.q)
+    (hst : StoreConforms s w.es) (hact : ActionsPresent s w.es) (hsl : SlotsMatch env w.sl)
+    (e : Expr) (hk : RecordKeysDistinct e = true) (hlinked : SlotsLinked env e = true)
+    (v : Verdict) (hv : checkEnv .permissive s env e = some v) (hne : v ≠ .fail) :
+    (∃ b, w.eval e = .ok (.prim (.bool b))) ∨ (∃ err, w.eval e = .error err ∧ Permitted err) := by
+  unfold checkEnv at hv
+  cases hE : expectOneOf (typeOf .permissive s env e []) [boolT] with
+  | error err =>
+    rw [hE] at hv
+    cases err <;> simp at hv
+    exact (hne hv.symm).elim
+  | ok p =>
+    obtain ⟨τ, c'⟩ := p
+    obtain ⟨ht, hs⟩ := expectOneOf_ok hE
+    have hs' := (typeOf_sound_permissive s env w hWF hND henv hreq hst hact hsl e [] τ c' hk hlinked ht (capsHold_nil w)).1
+    rcases hs'.bool_cases (subtype_bool hs) with he | ⟨b, hb, _, _⟩
+    · exact Or.inr he
+    · exact Or.inl ⟨b, hb⟩
+
+/-- Corollary (permissive, every expression): a condition typed `False` in the request's environment is never satisfied. -/
+theorem typed_false_never_satisfied_permissive (s : Schema) (env : RequestEnv) (w : World)
+    (hWF : SchemaWF2 s) (hND : SchemaND s) (henv : EnvMatches s env w.q) (hreq : ConformsRequest s w.q)
+    (hst : StoreConforms s w.es) (hact : ActionsPresent s w.es) (hsl : SlotsMatch env w.sl)
+    (e : Expr) (hk : RecordKeysDistinct e = true) (hlinked : SlotsLinked env e = true)
+    (hv : checkEnv .permissive s env e = some .ff) :
+    w.eval e ≠ .ok (.prim (.bool true)) := by
+  unfold checkEnv at hv
+  cases hE : expectOneOf (typeOf .permissive s env e []) [boolT] with
+  | error err => rw [hE] at hv; cases err <;> simp at hv
+  | ok p =>
+    obtain ⟨τ, c'⟩ := p
+    rw [hE] at hv
+    obtain ⟨ht, hs⟩ := expectOneOf_ok hE
+    have hτ : τ = .bool .ff := by
+      rcases subtype_bool hs with rfl | ⟨bt, rfl⟩
+      · simp at hv
+      · cases bt <;> simp at hv
+        rfl
+    subst hτ
+    have hs' := (typeOf_sound_permissive s env w hWF hND henv hreq hst hact hsl e [] _ c' hk hlinked ht (capsHold_nil w)).1
+    intro htrue
+    rcases hs' with ⟨err, he, _⟩ | ⟨v, hv', hi, _⟩
+    · rw [htrue] at he; cases he
+    · rw [htrue] at hv'; cases hv'; cases hi
+
+/-- POLICY LEVEL, PERMISSIVE MODE, NO FRAGMENT (policies and templates): if the permissive typechecker accepts the condition
+in every request environment, then in every world whose request environment is one of them (with the policy's slots linked
+in it) evaluation yields a boolean or fails with an entity / overflow / extension error only. -/
+theorem permissive_validation_sound (s : Schema) (pu ru : SlotUse) (cond : Expr) (vs : List (RequestEnv × Verdict))
+    (w : World) (env : RequestEnv)
+    (hWF : SchemaWF2 s) (hND : SchemaND s) (hmem : env ∈ s.envs pu ru) (henv : EnvMatches s env w.q)
+    (hreq : ConformsRequest s w.q) (hst : StoreConforms s w.es) (hact : ActionsPresent s w.es) (hsl : SlotsMatch env w.sl)
+    (hk : RecordKeysDistinct cond = true) (hlinked : SlotsLinked env cond = true)
+    (hcp : checkPolicy .permissive s pu ru cond = some vs) (hacc : accepted vs = true) :
+    (∃ b, w.eval cond = .ok (.prim (.bool b))) ∨ (∃ err, w.eval cond = .error err ∧ Permitted err) := by
+  obtain ⟨v, hv, hvm⟩ := checkPolicy_mem hcp hmem
+  have hne : v ≠ .fail := by
+    have := List.all_eq_true.mp hacc _ hvm
+    simpa using this
+  exact accepted_boolean_or_permitted_error_permissive s env w hWF hND henv hreq hst hact hsl cond hk hlinked v hv hne
+
+/-- POLICY LEVEL, permissive, static policies (no slots): on EVERY conformant request and store. -/
+theorem permissive_validation_sound_static (s : Schema) (cond : Expr) (vs : List (RequestEnv × Verdict)) (w : World)
+    (hWF : SchemaWF2 s) (hND : SchemaND s) (hreq : ConformsRequest s w.q) (hst : StoreConforms s w.es)
+    (hact : ActionsPresent s w.es) (hk : RecordKeysDistinct cond = true) (hlinked : ∀ env, SlotsLinked env cond = true)
+    (hcp : checkPolicy .permissive s .absent .absent cond = some vs) (hacc : accepted vs = true) :
+    (∃ b, w.eval cond = .ok (.prim (.bool b))) ∨ (∃ err, w.eval cond = .error err ∧ Permitted err) := by
+  obtain ⟨env, hmem, henv, hp, hr⟩ := conformant_request_env hreq
+  have hsl : SlotsMatch env w.sl := ⟨fun t ht => (by rw [hp] at ht; cases ht), fun t ht => (by rw [hr] at ht; cases ht)⟩
+  exact permissive_validation_sound s .absent .absent cond vs w env hWF hND hmem henv hreq hst hact hsl hk (hlinked env) hcp hacc
+
+/-- POLICY LEVEL, permissive, no fragment: a static policy flagged impossible is satisfied by no conformant request -/
+theorem impossible_policy_never_satisfied_permissive (s : Schema) (cond : Expr) (vs : List (RequestEnv × Verdict))
+    (w : World) (hWF : SchemaWF2 s) (hND : SchemaND s) (hreq : ConformsRequest s w.q) (hst : StoreConforms s w.es)
+    (hact : ActionsPresent s w.es) (hk : RecordKeysDistinct cond = true) (hlinked : ∀ env, SlotsLinked env cond = true)
+    (hcp : checkPolicy .permissive s .absent .absent cond = some vs) (himp : impossible vs = true) :
+    w.eval cond ≠ .ok (.prim (.bool true)) := by
+  obtain ⟨env, hmem, henv, hp, hr⟩ := conformant_request_env hreq
+  have hsl : SlotsMatch env w.sl := ⟨fun t ht => (by rw [hp] at ht; cases ht), fun t ht => (by rw [hr] at ht; cases ht)⟩
+  obtain ⟨v, hv, hvm⟩ := checkPolicy_mem hcp hmem
+  have hff : v = .ff := by
+    have := List.all_eq_true.mp himp _ hvm
+    simpa using this
+  subst hff
+  exact typed_false_never_satisfied_permissive s env w hWF hND henv hreq hst hact hsl cond hk (hlinked env) hv
+
 /-! #### non-vacuity: policies that PERMISSIVE mode accepts and STRICT mode rejects -/
 
 def evalsToBool (w : World) (e : Expr) : Option Bool :=
@@ -850,5 +991,56 @@ example : (∃ b, ex2World.eval exJoinEq = .ok (.prim (.bool b))) ∨ (∃ err, 
   permissive_validation_sound_static_partial ex2Schema exJoinEq
     [(⟨"User", ⟨"Action", "view"⟩, "Group", ex2View.context, none, none⟩, .bool)] ex2World ex2_schemaWF ex2_request ex2_store ex2_actions
     (fun _ => rfl) rfl rfl
+
+/-! #### non-vacuity of the full permissive theorem: access and membership on UNION-typed operands -/
+
+theorem ex2_schemaND : SchemaND ex2Schema where
+  et_nd := by
+    intro T et h
+    have hm := entityType?_mem' h
+    simp only [ex2Schema, List.mem_cons, Prod.mk.injEq, List.not_mem_nil, or_false] at hm
+    rcases hm with ⟨rfl, rfl⟩ | ⟨rfl, rfl⟩
+    · exact ⟨by decide, fun t ht => by simp [ex2Group] at ht⟩
+    · exact ⟨by decide, fun t ht => by simp [ex2User] at ht; subst ht; rfl⟩
+  act_nd := by
+    intro u a h
+    have hm := action?_mem h
+    simp only [ex2Schema, List.mem_cons, Prod.mk.injEq, List.not_mem_nil, or_false] at hm
+    rcases hm with ⟨rfl, rfl⟩ | ⟨rfl, rfl⟩ <;> decide
+
+/-- `principal ⊔ resource` : `User ⊔ Group` -/
+def exPR : Expr := .ite (.hasAttr principal "name") principal (.var .resource)
+/-- `(if … then principal else resource) has name && (…) is User && (…) in resource && (…).hasTag("team")
+    && (…).getTag("team") like "b*" && (if … then {a: principal, b: 1} else {a: resource}).a in [principal, resource]
+    && [if … then [] else [1]].isEmpty() == false` -/
+def exUnionCond : Expr :=
+  .and (.hasAttr exPR "name")
+  (.and (.is exPR "User")
+  (.and (.binaryApp .mem exPR (.var .resource))
+  (.and (.binaryApp .hasTag exPR ex2Team)
+  (.and (.like (.binaryApp .getTag exPR ex2Team) [.char 'b', .star])
+  (.and (.binaryApp .mem
+          (.getAttr (.ite (.hasAttr principal "name") (.record [("a", principal), ("b", .lit (.int 1))])
+                          (.record [("a", .var .resource)])) "a")
+          (.set [principal, .var .resource]))
+        (.binaryApp .eq (.unaryApp .isEmpty (.set [.ite (.hasAttr principal "name") (.set []) (.set [.lit (.int 1)])]))
+          (.lit (.bool false))))))))
+
+example : checkEnv .strict ex2Schema ex2Env exUnionCond = some .fail := by decide +kernel
+example : checkEnv .permissive ex2Schema ex2Env exUnionCond = some .bool := by decide +kernel
+/-- outside the fragment of the previous round -/
+example : InFragmentP ex2Env exUnionCond = false := by decide +kernel
+example : evalsToBool ex2World exUnionCond = some true := by decide +kernel
+/-- the full theorem, all its premises instantiated -/
+example : (∃ b, ex2World.eval exUnionCond = .ok (.prim (.bool b))) ∨
+    (∃ err, ex2World.eval exUnionCond = .error err ∧ Permitted err) :=
+  accepted_boolean_or_permitted_error_permissive ex2Schema ex2Env ex2World ex2_schemaWF ex2_schemaND ex2_envMatches ex2_request
+    ex2_store ex2_actions ex2_slots exUnionCond (by decide +kernel) (by decide +kernel) .bool (by decide +kernel) (by decide)
+/-- policy level, every environment of the schema, no fragment -/
+example : (∃ b, ex2World.eval exUnionCond = .ok (.prim (.bool b))) ∨
+    (∃ err, ex2World.eval exUnionCond = .error err ∧ Permitted err) :=
+  permissive_validation_sound_static ex2Schema exUnionCond
+    [(⟨"User", ⟨"Action", "view"⟩, "Group", ex2View.context, none, none⟩, .bool)] ex2World ex2_schemaWF ex2_schemaND ex2_request
+    ex2_store ex2_actions (by decide +kernel) (fun _ => rfl) rfl rfl
 
 end Cedar.C03
